@@ -112,6 +112,8 @@ class SubPackets(collections_abc.MutableMapping, Field):
         self._unhashed_sp = collections.OrderedDict()
         # the hashed area exactly as it was received, for as long as it is not modified
         self._hashed_raw = None
+        # likewise the unhashed area: writing it back from the parsed subpackets would normalise what they do not model
+        self._unhashed_raw = None
 
     def __bytearray__(self):
         _bytes = bytearray()
@@ -131,6 +133,9 @@ class SubPackets(collections_abc.MutableMapping, Field):
         return _bytes
 
     def __unhashbytearray__(self):
+        if self._unhashed_raw is not None:
+            return bytearray(self._unhashed_raw)
+
         _bytes = bytearray()
         _bytes += self.int_to_bytes(sum(len(sp) for sp in self._unhashed_sp.values()), 2)
         for uhsp in self._unhashed_sp.values():
@@ -161,6 +166,9 @@ class SubPackets(collections_abc.MutableMapping, Field):
             d, key = self._hashed_sp, key[2:]
             self._hashed_raw = None
 
+        else:
+            self._unhashed_raw = None
+
         while (key, i) in d:
             i += 1
 
@@ -188,6 +196,7 @@ class SubPackets(collections_abc.MutableMapping, Field):
         sp._hashed_sp = self._hashed_sp.copy()
         sp._unhashed_sp = self._unhashed_sp.copy()
         sp._hashed_raw = copy.copy(self._hashed_raw)
+        sp._unhashed_raw = copy.copy(self._unhashed_raw)
 
         return sp
 
@@ -223,12 +232,15 @@ class SubPackets(collections_abc.MutableMapping, Field):
         self._hashed_raw = hashed_raw
 
         uhl = self.bytes_to_int(packet[:2])
+        unhashed_raw = packet[:2 + uhl]
         del packet[:2]
 
         plen = len(packet)
         while plen - len(packet) < uhl:
             sp = SignatureSP(packet)
             self[sp.__class__.__name__] = sp
+
+        self._unhashed_raw = unhashed_raw
 
 
 class UserAttributeSubPackets(SubPackets):
